@@ -1,2 +1,217 @@
-(* C11 -- placeholder while the proofs are being written *)
-From Verif Require Import Namespace.
+(* C11 -- types map one-to-one onto files in the output tree; the namespace model is a tree.
+   Statements only; every proof is `exact <lemma>`.
+   Model: Gen/Namespace.v (hand model of nunavut/_namespace.py build_namespace_tree, Namespace enumeration,
+   BFS lookup, and of IncludeGenerator.make_path), tied to /repo by the correspondence run of tools/checks/c11.py.
+   Spec vocabulary: Gen/NamespaceSpec.v (prefixes, nodes_of, parent_of, one_root, ns_fold, resolve ...).
+   Quantification: EVERY list of types (NoDup = pairwise different (namespace, short name, version); one_root = what
+   pydsdl.read_namespace returns), EVERY stropping function, EVERY iteration order `perm` of the set namespace_index and
+   `cperm` of the sets Namespace._nested_namespaces, every extension / stem / output directory.
+   ns_fold strop types = true is the TRIGGER of known finding F-NS-FOLD: two different DSDL namespaces with the same
+   stropped spelling (Namespace.__eq__/__hash__ compare the stropped name). *)
+From Verif Require Import NamespaceBase NamespaceBuildThm NamespaceTreeThm NamespacePathThm NamespaceThm.
+Open Scope N_scope.
+
+(* (1) index_prefix_closed: after the loop over the types the ancestor index is exactly the set of all non-empty
+   prefixes of the types' namespaces, without duplicates -- the invariant that makes the `break` sound. *)
+Theorem C11_index_prefix_closed (strop : str -> str) (es : bool) (ext : str) (outdir : path) :
+  forall (types : list ty) (r : str), NoDup types -> one_root r types ->
+    NoDup (snd (build_index strop es ext outdir types)) /\
+    forall k, In k (snd (build_index strop es ext outdir types)) <-> In k (nodes_of types).
+Proof. exact (index_is_prefix_set strop es ext outdir). Qed.
+Print Assumptions C11_index_prefix_closed.
+
+(* (2) ns_each_once: every non-empty prefix of every type's namespace (empty intermediate namespaces included) is a
+   Namespace object of the built heap exactly once, and nothing else is.  Holds even when namespaces fold. *)
+Theorem C11_ns_each_once (strop : str -> str) (es : bool) (ext : str) (outdir : path) :
+  forall perm, (forall l, Permutation (perm l) l) ->
+  forall (types : list ty) (r : str), NoDup types -> one_root r types -> types <> [] ->
+    NoDup (keys (fst (build strop es ext outdir perm types))) /\
+    forall k, In k (keys (fst (build strop es ext outdir perm types))) <-> In k (nodes_of types).
+Proof. exact (ns_each_once strop es ext outdir). Qed.
+Print Assumptions C11_ns_each_once.
+
+(* (3) every type is stored exactly once, in the node of its own namespace, with its output path *)
+Theorem C11_types_stored_once (strop : str -> str) (es : bool) (ext : str) (outdir : path) :
+  forall perm, (forall l, Permutation (perm l) l) ->
+  forall (types : list ty) (r : str), NoDup types -> one_root r types -> types <> [] ->
+  forall k n, get (fst (build strop es ext outdir perm types)) k = Some n ->
+    n_types n = map (fun t => (t, out_path strop es ext outdir t)) (filter (fun t => key_eqb (t_ns t) k) types).
+Proof. exact (types_stored_once strop es ext outdir). Qed.
+Print Assumptions C11_types_stored_once.
+
+(* (4) links: _parent is the namespace one component shorter; every member of _nested_namespaces is a node whose
+   parent by name is this node.  Unconditional. *)
+Theorem C11_links_sound (strop : str -> str) (es : bool) (ext : str) (outdir : path) :
+  forall perm, (forall l, Permutation (perm l) l) ->
+  forall (types : list ty) (r : str), NoDup types -> one_root r types -> types <> [] ->
+  forall k n, get (fst (build strop es ext outdir perm types)) k = Some n ->
+    n_parent n = parent_of k /\
+    forall c, In c (n_children n) -> In c (keys (fst (build strop es ext outdir perm types))) /\ parent_of c = Some k.
+Proof. exact (links_sound strop es ext outdir). Qed.
+Print Assumptions C11_links_sound.
+
+(* (4') links_consistent: c in children(p)  <->  c is a node and parent-by-name(c) = p; children duplicate-free.
+   PARTIAL: excluded trigger ns_fold (see refutation below). *)
+Theorem C11_links_consistent_partial (strop : str -> str) (es : bool) (ext : str) (outdir : path) :
+  forall perm, (forall l, Permutation (perm l) l) ->
+  forall (types : list ty) (r : str), NoDup types -> one_root r types -> types <> [] ->
+  ns_fold strop types = false ->
+  forall k n, get (fst (build strop es ext outdir perm types)) k = Some n ->
+    n_parent n = parent_of k /\ NoDup (n_children n) /\
+    forall c, In c (n_children n) <-> (In c (keys (fst (build strop es ext outdir perm types))) /\ parent_of c = Some k).
+Proof. exact (links_consistent_partial strop es ext outdir). Qed.
+Print Assumptions C11_links_consistent_partial.
+
+(* (5) tree: the returned root is the one-component namespace [r]; get_root_namespace reaches it from every node;
+   it is the only node without parent; every parent is a node and is exactly one component shorter (acyclic). *)
+Theorem C11_tree (strop : str -> str) (es : bool) (ext : str) (outdir : path) :
+  forall perm, (forall l, Permutation (perm l) l) ->
+  forall (types : list ty) (r : str), NoDup types -> one_root r types -> types <> [] ->
+    snd (build strop es ext outdir perm types) = [r] /\
+    (forall k, In k (keys (fst (build strop es ext outdir perm types))) -> get_root_namespace (fst (build strop es ext outdir perm types)) k = [r]) /\
+    (forall k n, get (fst (build strop es ext outdir perm types)) k = Some n -> (n_parent n = None <-> k = [r])) /\
+    (forall k n p, get (fst (build strop es ext outdir perm types)) k = Some n -> n_parent n = Some p ->
+        In p (keys (fst (build strop es ext outdir perm types))) /\ length k = S (length p) /\ firstn (length p) k = p).
+Proof. exact (tree_shape strop es ext outdir). Qed.
+Print Assumptions C11_tree.
+
+(* (6) types_each_once: get_all_types / get_all_datatypes / get_all_namespaces from the root enumerate every type
+   exactly once (with its output path) and every namespace exactly once, for every iteration order.
+   PARTIAL: excluded trigger ns_fold. *)
+Theorem C11_types_each_once_partial (strop : str -> str) (es : bool) (ext : str) (stem : str) (outdir : path) :
+  forall perm cperm, (forall l, Permutation (perm l) l) -> (forall l, Permutation (cperm l) l) ->
+  forall (types : list ty) (r : str), NoDup types -> one_root r types -> types <> [] ->
+  ns_fold strop types = false ->
+    Permutation (get_all_types strop ext stem outdir cperm (fst (build strop es ext outdir perm types)) (snd (build strop es ext outdir perm types)))
+                (map (ns_item strop ext stem outdir) (keys (fst (build strop es ext outdir perm types)))
+                 ++ map (ty_item strop es ext outdir) types) /\
+    Permutation (get_all_datatypes cperm (fst (build strop es ext outdir perm types)) (snd (build strop es ext outdir perm types)))
+                (map (fun t => (t, out_path strop es ext outdir t)) types) /\
+    Permutation (get_all_namespaces strop ext stem outdir cperm (fst (build strop es ext outdir perm types)) (snd (build strop es ext outdir perm types)))
+                (map (fun k => (k, ns_path strop ext stem outdir k)) (keys (fst (build strop es ext outdir perm types)))).
+Proof. exact (types_each_once_partial strop es ext stem outdir). Qed.
+Print Assumptions C11_types_each_once_partial.
+
+(* (7) lookup_total: find_output_path_for_type finds every type of the tree from every node (own dictionary, else
+   BFS from the root skipping self) and returns its output path.  PARTIAL: excluded trigger ns_fold. *)
+Theorem C11_lookup_total_partial (strop : str -> str) (es : bool) (ext : str) (outdir : path) :
+  forall perm cperm, (forall l, Permutation (perm l) l) -> (forall l, Permutation (cperm l) l) ->
+  forall (types : list ty) (r : str), NoDup types -> one_root r types -> types <> [] ->
+  ns_fold strop types = false ->
+  forall self t, In self (keys (fst (build strop es ext outdir perm types))) -> In t types ->
+    find_output_path strop cperm (fst (build strop es ext outdir perm types)) self t = Some (out_path strop es ext outdir t).
+Proof. exact (lookup_total_partial strop es ext outdir). Qed.
+Print Assumptions C11_lookup_total_partial.
+
+(* (8) path_shape: output path = outdir / strop(ns_1) / ... / strop(Short_M_m) ++ ext, whenever the stropped file stem
+   contains no '.' (identifiers never do: C09); same for the namespace file. *)
+Theorem C11_path_shape (strop : str -> str) (es : bool) (ext : str) (outdir : path) :
+  forall t, ~ In DOT (pstrop strop es (base_name t)) ->
+    out_path strop es ext outdir t = outdir ++ map (pstrop strop es) (t_ns t) ++ [pstrop strop es (base_name t) ++ ext].
+Proof. exact (path_shape strop es ext outdir). Qed.
+Print Assumptions C11_path_shape.
+
+Theorem C11_ns_path_shape (strop : str -> str) (ext : str) (stem : str) (outdir : path) :
+  forall k, ~ In DOT stem -> ns_path strop ext stem outdir k = outdir ++ map strop k ++ [stem ++ ext].
+Proof. exact (ns_path_shape strop ext stem outdir). Qed.
+Print Assumptions C11_ns_path_shape.
+
+(* (9) path_injective: distinct types never share a file, provided stropping is injective on the names involved
+   (namespace components and Short_M_m of the types).  The documented folding exception is exactly the negation of
+   this hypothesis.  Short_M_m itself is injective in (Short, M, m) although short names may contain '_' and digits. *)
+Theorem C11_path_injective (strop : str -> str) (es : bool) (ext : str) (outdir : path) :
+  forall types t1 t2,
+    (forall x y, In x (names_of types) -> In y (names_of types) -> pstrop strop es x = pstrop strop es y -> x = y) ->
+    (forall t, In t types -> ~ In DOT (pstrop strop es (base_name t))) ->
+    In t1 types -> In t2 types ->
+    out_path strop es ext outdir t1 = out_path strop es ext outdir t2 -> t1 = t2.
+Proof. exact (path_injective strop es ext outdir). Qed.
+Print Assumptions C11_path_injective.
+
+Theorem C11_base_name_injective :
+  forall t1 t2, base_name t1 = base_name t2 ->
+    t_short t1 = t_short t2 /\ t_major t1 = t_major t2 /\ t_minor t1 = t_minor t2.
+Proof. exact base_name_inj. Qed.
+Print Assumptions C11_base_name_injective.
+
+(* (10) path_inside_outdir: if the stropped names are identifier-like (non-empty, no '/', no '.': C09) every component
+   below the output directory is a safe file name, so lexical resolution from ANY directory `st` only descends. *)
+Theorem C11_path_inside_outdir (strop : str -> str) (es : bool) (ext : str) (outdir : path) :
+  forall types t, In t types ->
+    (forall x, In x (names_of types) -> ident_like (pstrop strop es x)) -> ~ In SLASH ext ->
+    exists rel, out_path strop es ext outdir t = outdir ++ rel /\ rel = make_path strop es ext t /\
+                Forall safe_comp rel /\ forall st, resolve st rel = rev rel ++ st.
+Proof. exact (path_inside strop es ext outdir). Qed.
+Print Assumptions C11_path_inside_outdir.
+
+Theorem C11_ns_path_inside_outdir (strop : str -> str) (ext : str) (stem : str) (outdir : path) :
+  forall k, (forall x, In x k -> ident_like (strop x)) -> ident_like stem -> ~ In SLASH ext ->
+    exists rel, ns_path strop ext stem outdir k = outdir ++ rel /\
+                Forall safe_comp rel /\ forall st, resolve st rel = rev rel ++ st.
+Proof. exact (ns_path_inside strop ext stem outdir). Qed.
+Print Assumptions C11_ns_path_inside_outdir.
+
+(* (11) include_path_eq_output_path: the path used to include a type that is merely referenced (make_path) is the
+   output path of the generated type relative to the output directory. *)
+Theorem C11_include_path_eq_output_path (strop : str -> str) (es : bool) (ext : str) (outdir : path) :
+  forall t, out_path strop es ext outdir t = outdir ++ include_path strop es ext t /\
+            relative_to_outdir outdir (out_path strop es ext outdir t) = include_path strop es ext t.
+Proof. exact (include_path_eq_output_path strop es ext outdir). Qed.
+Print Assumptions C11_include_path_eq_output_path.
+
+(* ---- the full statements of (6) and (7) are FALSE of the faithful model: F-NS-FOLD ----------------------------------
+   Witness: ns.class.Q.1.0 and ns._class.R.1.0 with a stropping that maps class -> _class (C and C++ do).  All other
+   premises hold; ns._class is a Namespace object (2) but is not a child of ns, its type R is never enumerated and
+   cannot be found from the root. *)
+Theorem C11_types_each_once_refuted :
+  exists (strop : str -> str) (types : list ty) (r : str) (perm cperm : list key -> list key) (t : ty),
+    NoDup types /\ one_root r types /\ types <> [] /\
+    (forall l, Permutation (perm l) l) /\ (forall l, Permutation (cperm l) l) /\
+    ns_fold strop types = true /\ In t types /\
+    let b := build strop true w_ext w_out perm types in
+    existsb (fun tp => ty_eqb (fst tp) t) (get_all_datatypes cperm (fst b) (snd b)) = false /\
+    find_output_path strop cperm (fst b) [r] t = None /\
+    In (t_ns t) (keys (fst b)).
+Proof.
+  exists w_strop, [w_Q; w_R], w_ns, w_id, w_id, w_R.
+  destruct w_premises as (A & B & C & D).
+  repeat (split; [first [exact A | exact B | exact C | exact D | exact w_fold | (right; left; reflexivity)]|]).
+  exact w_dropped.
+Qed.
+Print Assumptions C11_types_each_once_refuted.
+
+(* ---- non-vacuity: the premises of the partial theorems are satisfiable together, with a stropping that changes names,
+   an empty intermediate namespace, two versions of one type, and non-identity iteration orders ---------------------- *)
+Definition ex_strop (x : str) : str := if str_eqb x w_class then 95 :: w_class else x.
+Definition ex_types : list ty :=
+  [mkTy [w_ns; w_class; [97]] [81] 1 0; mkTy [w_ns; w_class; [97]] [81] 1 1; mkTy [w_ns] [84] 0 1; mkTy [w_ns; [98]] [85] 2 0].
+
+Example C11_partial_premises_satisfiable :
+  NoDup ex_types /\ one_root w_ns ex_types /\ ex_types <> [] /\ ns_fold ex_strop ex_types = false /\
+  (forall l : list key, Permutation (rev l) l) /\
+  length (keys (fst (build ex_strop true w_ext w_out (@rev key) ex_types))) = 4%nat /\
+  length (get_all_types ex_strop w_ext [95] w_out (@rev key)
+            (fst (build ex_strop true w_ext w_out (@rev key) ex_types))
+            (snd (build ex_strop true w_ext w_out (@rev key) ex_types))) = 8%nat.
+Proof.
+  split; [|split; [|split; [|split; [|split; [|split]]]]].
+  - repeat (constructor; [cbn [In]; intuition discriminate|]). constructor.
+  - intros t Ht. cbn [ex_types In] in Ht. intuition (subst; eexists; reflexivity).
+  - discriminate.
+  - vm_compute. reflexivity.
+  - intros l. apply Permutation_sym, Permutation_rev.
+  - vm_compute. reflexivity.
+  - vm_compute. reflexivity.
+Qed.
+
+(* the hypotheses of (9)/(10) are satisfiable by a stropping that changes every name *)
+Example C11_path_premises_satisfiable :
+  let strop := fun x : str => 95 :: x in
+  (forall x y, In x (names_of ex_types) -> In y (names_of ex_types) -> pstrop strop true x = pstrop strop true y -> x = y) /\
+  (forall x, In x (names_of ex_types) -> ident_like (pstrop strop true x)).
+Proof.
+  split.
+  - intros x y _ _ H. cbn [pstrop] in H. congruence.
+  - intros x Hx. vm_compute in Hx. unfold ident_like, pstrop, SLASH, DOT.
+    repeat (destruct Hx as [<-|Hx]; [split; [discriminate | split; cbn [In]; intuition discriminate]|]). destruct Hx.
+Qed.
